@@ -4,5 +4,5 @@
 import sys
 sys.path[:0] = ['/repo' + "/pulser-core", '/repo' + "/pulser-simulation", "/verif"]
 from symx.replay import replay
-sys.exit(replay(check='checks.c01', kernel='vp', shape={'amp': 'const', 'det': 'custom', 'max_amp': False, 'max_det': True, 'minavg': False, 'grid': 7, 'n': 3},
-                assignment={'max_det': 677915, 'amp.v': '0/1', 'det.s0': 677915, 'det.s1': 677915, 'det.s2': -677915}, label='vp:inside_is_accepted'))
+sys.exit(replay(check='checks.c01', kernel='vp', shape={'amp': 'const', 'det': 'const', 'max_amp': False, 'max_det': True, 'minavg': True, 'grid': 7, 'n': 3},
+                assignment={'max_det': 282736, 'min_avg_amp': '0/1', 'dur': 1, 'amp.v': '0/1', 'det.v': -282735}, label='vp:inside_is_accepted'))
